@@ -74,13 +74,16 @@ def _key(x) -> str:
 
 
 class CtxField:
-    """The family of context functions the model covers: a named field of the frame `up` levels up."""
+    """The family of context functions the model covers: a named field of the frame `up` levels up
+    (ctx.field, ctx._.field, ...), or of the outermost frame (up = -1: ctx._root.field)."""
 
     def __init__(self, up: int, field: str):
         self.up = up
         self.field = field
 
     def __call__(self, ctx):
+        if self.up < 0:
+            return getattr(ctx._root, self.field)
         for _ in range(self.up):
             ctx = ctx._
         return getattr(ctx, self.field)
@@ -424,6 +427,10 @@ def _unknown(value) -> dict:
 
 
 def _lookup(frames, up, field):
+    if up < 0:                      # ctx._root: the outermost frame, defined only below at least one parent
+        if len(frames) < 2:
+            return None
+        up = len(frames) - 1
     if len(frames) <= up:
         return None
     fr = frames[up]
@@ -460,6 +467,43 @@ def _flags_to_int(cls, value):
     return n
 
 
+def _wrong(value, pod) -> dict:
+    return {"?": "not the %s form: %s:%r" % ("plain-data" if pod else "rich", type(value).__name__, value)}
+
+
+def _enum_canon(cls, value, pod):
+    """int of an enum-adapted value; in strict mode (pod is True / False) the value must be in that mode's form:
+    plain data = member name (plain int only for undefined values), rich = member (plain int for undefined values)."""
+    import enum as _enum
+    defined = {int(m.value) for m in cls}
+    if pod is None:
+        return cint(_enum_to_int(cls, value))
+    if pod:
+        if isinstance(value, str):
+            return cint(int(cls[value]))
+        if type(value) is int and value not in defined:
+            return cint(value)
+        return _wrong(value, pod)
+    if isinstance(value, _enum.Enum):
+        return cint(int(value))
+    if type(value) is int and value not in defined:
+        return cint(value)
+    return _wrong(value, pod)
+
+
+def _flag_canon(cls, value, pod):
+    import enum as _enum
+    if pod is None:
+        return cint(_flags_to_int(cls, value))
+    if pod:
+        if isinstance(value, (tuple, list)) and all(isinstance(x, str) or type(x) is int for x in value):
+            return cint(_flags_to_int(cls, value))
+        return _wrong(value, pod)
+    if isinstance(value, _enum.Flag):
+        return cint(int(value))
+    return _wrong(value, pod)
+
+
 def _generic_canon(value):
     if isinstance(value, lazy_object_proxy.Proxy):
         value = value.__wrapped__
@@ -492,9 +536,12 @@ def _generic_canon(value):
 
 def canon(value, tree: Optional[dict] = None, pod: Optional[bool] = None, _frames: tuple = ()):
     """Canonical JSON-able form of a Python value.  With a tree the conversion is tree-directed (exact);
-    without one a best-effort structural conversion is used.  `pod` is accepted for symmetry (both
-    flavours map to the same canonical value).  A value of an unexpected Python type becomes
-    {"?": ...}, which never equals a value of the specification."""
+    without one a best-effort structural conversion is used.  Rich and plain-data flavours map to the same
+    canonical value.  With pod=True / pod=False the conversion is MODE-STRICT: every node whose two flavours
+    differ (UUID, coordinates, tagged unions, enum / flag adapters and switch keys, dataclasses) must be in that
+    mode's Python form all the way down (the mode is state every combinator passes down unchanged); pod=None
+    accepts either form.  A value of an unexpected Python type or flavour becomes {"?": ...}, which never
+    equals a value of the specification."""
     if tree is None:
         return _generic_canon(value)
     if isinstance(value, lazy_object_proxy.Proxy):
@@ -510,8 +557,10 @@ def canon(value, tree: Optional[dict] = None, pod: Optional[bool] = None, _frame
         return _unknown(value)
     if k == "uuid":
         if isinstance(value, _uuid.UUID):
-            return {"u": list(value.bytes)}
+            return {"u": list(value.bytes)} if not pod else _wrong(value, pod)
         if isinstance(value, str):
+            if pod is False:
+                return _wrong(value, pod)
             try:
                 return {"u": list(_uuid.UUID(value).bytes)}
             except ValueError:
@@ -519,6 +568,8 @@ def canon(value, tree: Optional[dict] = None, pod: Optional[bool] = None, _frame
         return _unknown(value)
     if k == "coord":
         if isinstance(value, (dtypes.TupleCoord, tuple, list)):
+            if pod is not None and isinstance(value, dtypes.TupleCoord) == bool(pod):
+                return _wrong(value, pod)
             vals = list(value)
             if len(vals) == tree["n"] and all(isinstance(x, float) for x in vals):
                 fmt = ">f" if tree["w"] == 4 else ">d"
@@ -546,7 +597,10 @@ def canon(value, tree: Optional[dict] = None, pod: Optional[bool] = None, _frame
             out.append(canon(x, ct, pod, ({"l": list(out)},) + _frames))
         return {"l": out}
     if k == "template":
-        if dataclasses.is_dataclass(value) and not isinstance(value, type):
+        is_dc = dataclasses.is_dataclass(value) and not isinstance(value, type)
+        if pod is not None and is_dc != bool(tree.get("dc") and not pod):
+            return _wrong(value, pod)
+        if is_dc:
             value = {f.name: getattr(value, f.name) for f in dataclasses.fields(value)}
         if not isinstance(value, dict):
             return _unknown(value)
@@ -563,17 +617,24 @@ def canon(value, tree: Optional[dict] = None, pod: Optional[bool] = None, _frame
         return NONE if value is None else canon(value, tree["c"], pod, _frames)
     if k in ("lenswitch", "enumswitch"):
         if isinstance(value, dtypes.TaggedUnion):
+            if pod:
+                return _wrong(value, pod)
             tag, val = value.tag, value.value
         elif isinstance(value, (tuple, list)) and len(value) == 2:
+            if pod is False:
+                return _wrong(value, pod)
             tag, val = value
         else:
             return _unknown(value)
         if k == "enumswitch":
             cls = _enum_cls("enum", _members(tree.get("ms") or _default_enum_ms(tree["ch"])))
             try:
-                tag = _enum_to_int(cls, tag)
+                ctag = _enum_canon(cls, tag, pod)
             except (KeyError, ValueError, TypeError):
                 return _unknown(value)
+            if "?" in ctag:
+                return {"tag": ctag, "val": _generic_canon(val)}
+            tag = pint(ctag)
         if not isinstance(tag, int):
             return _unknown(value)
         key = tag
@@ -586,6 +647,8 @@ def canon(value, tree: Optional[dict] = None, pod: Optional[bool] = None, _frame
             return _unknown(value)
         by_name = {}
         for kk, vv in value.items():
+            if pod is not None and isinstance(kk, str) != bool(pod):
+                return _wrong(value, pod)
             by_name[kk if isinstance(kk, str) else getattr(kk, "name", str(kk))] = vv
         ents = []
         for c in tree["ch"]:
@@ -598,7 +661,10 @@ def canon(value, tree: Optional[dict] = None, pod: Optional[bool] = None, _frame
         ct = _ctx_option(tree, _frames)
         return canon(value, ct, pod, _frames)
     if k == "bitfield":
-        if dataclasses.is_dataclass(value) and not isinstance(value, type):
+        is_dc = dataclasses.is_dataclass(value) and not isinstance(value, type)
+        if pod is not None and is_dc != bool(tree.get("dc") and not pod):
+            return _wrong(value, pod)
+        if is_dc:
             value = {f.name: getattr(value, f.name) for f in dataclasses.fields(value)}
         if not isinstance(value, dict):
             return _unknown(value)
@@ -607,16 +673,19 @@ def canon(value, tree: Optional[dict] = None, pod: Optional[bool] = None, _frame
             if f["n"] in value:
                 x = value[f["n"]]
                 ad = f.get("ad")
+                cx = None
                 try:
                     if ad and ad["name"] == "IntEnum":
-                        x = _enum_to_int(_enum_cls("enum", _members(ad["ms"])), x)
+                        cx = _enum_canon(_enum_cls("enum", _members(ad["ms"])), x, pod)
                     elif ad and ad["name"] == "IntFlag":
-                        x = _flags_to_int(_enum_cls("flag", _members(ad["ms"])), x)
+                        cx = _flag_canon(_enum_cls("flag", _members(ad["ms"])), x, pod)
                     elif ad and ad["name"] == "Bool" and isinstance(x, bool):
                         x = int(x)
                 except (KeyError, ValueError, TypeError):
                     pass
-                ents.append({"n": f["n"], "v": cint(x) if isinstance(x, int) else _unknown(x)})
+                if cx is None:
+                    cx = cint(x) if isinstance(x, int) else _unknown(x)
+                ents.append({"n": f["n"], "v": cx})
         for extra in value:
             if extra not in [f["n"] for f in tree["fs"]]:
                 ents.append({"n": str(extra), "v": _generic_canon(value[extra])})
@@ -627,9 +696,9 @@ def canon(value, tree: Optional[dict] = None, pod: Optional[bool] = None, _frame
         name = tree.get("name", "ident")
         try:
             if name == "IntEnum":
-                return cint(_enum_to_int(_enum_cls("enum", _members(tree["ms"])), value))
+                return _enum_canon(_enum_cls("enum", _members(tree["ms"])), value, pod)
             if name == "IntFlag":
-                return cint(_flags_to_int(_enum_cls("flag", _members(tree["ms"])), value))
+                return _flag_canon(_enum_cls("flag", _members(tree["ms"])), value, pod)
         except (KeyError, ValueError, TypeError):
             return _unknown(value)
         if name in ("ident", "forward"):
@@ -740,6 +809,8 @@ def _enum_py(cls, n: int, pod: bool):
 
 
 def _flag_py(cls, n: int, pod: bool):
+    if n < 0:
+        return n            # no flag object for a negative word (out of every unsigned range): hand the integer over
     if not pod:
         return cls(n)
     names = []
